@@ -124,7 +124,7 @@ class Parser:
             return Sequence(EnumLabels(schema["symbols"]), Enum(default=default))
 
         elif record_type == "null":
-            return Null()
+            return Null(default=default)
         elif record_type == "boolean":
             return Boolean(default=default)
         elif record_type == "string":
